@@ -394,6 +394,39 @@ let cmd_box (toks : string list) : string =
      | OutOfFuel -> obj [kv "hdr" "\"ok?\""; kv "dec" "\"oof\""])
   | _ -> "EXN box args"
 
+
+(* fraglookup <mode> <dflt> <datahex|-> ids=.. run=moof:bdo:dd:tfdt:hastrun:flags:count:doff:durs:sizes:cts ... *)
+let cmd_fraglookup (toks : string list) : string =
+  match toks with
+  | md :: dflt :: data :: rest ->
+    let m = mode_of md in
+    let dflt = n_of_hex dflt in
+    let data = bytes_of_hex data in
+    let pref p s = String.length s > String.length p && String.sub s 0 (String.length p) = p in
+    let ids = match List.find_opt (pref "ids=") rest with Some s -> nlist (String.sub s 4 (String.length s - 4)) | None -> [] in
+    let on s = if s = "-" then None else Some (n_of_hex s) in
+    let runs = List.filter_map (fun s ->
+        if pref "run=" s then
+          (match String.split_on_char ':' (String.sub s 4 (String.length s - 4)) with
+           | [mo; bdo; dd; tf; ht; fl; cnt; doff; durs; sizes; cts] ->
+             Some { fr_moof_offset = n_of_hex mo; fr_base_data_offset = on bdo; fr_default_duration = on dd; fr_tfdt = on tf;
+                    fr_has_trun = (ht = "1"); fr_flags = n_of_hex fl; fr_sample_count = n_of_hex cnt;
+                    fr_data_offset = (if doff = "-" then None else Some (z_of_dec doff));
+                    fr_durations = nlist durs; fr_sizes = nlist sizes; fr_cts = nlist cts }
+           | _ -> failwith "run")
+        else None) rest in
+    let t = { tr_id = n_of_int 1; tr_tables = { t_stsc = []; t_stsz_size = N0; t_stsz_count = N0; t_stsz_sizes = []; t_stco = None; t_co64 = None;
+                                                t_stts = []; t_ctts = None; t_stss = None };
+              tr_frags = runs; tr_default_sample_duration = dflt } in
+    let cons = frag_consistent runs dflt in
+    let exp = frag_expand runs dflt in
+    "{\"consistent\":" ^ jb cons ^ ",\"count\":" ^ jn (sample_count t)
+    ^ ",\"expand\":" ^ jl (fun ((((off, sz), st), du), ct) -> "[" ^ jn off ^ "," ^ jn sz ^ "," ^ jn st ^ "," ^ jn du ^ "," ^ jz ct ^ "]") exp
+    ^ ",\"ids\":" ^ jl (fun k ->
+        let (r, _) = run (read_sample m t k) (stream_at data N0) in
+        "{\"k\":" ^ jn k ^ ",\"off\":" ^ jres jn (sample_offset m t k) ^ ",\"rs\":" ^ jres (jo jsample) r ^ "}") ids ^ "}"
+  | _ -> "EXN fraglookup args"
+
 (* ---------- commands ---------- *)
 let handle (line : string) : string =
   match String.split_on_char ' ' line with
@@ -435,6 +468,7 @@ let handle (line : string) : string =
   | "lookup" :: rest -> cmd_lookup rest
   | "read" :: rest -> cmd_read rest
   | "box" :: rest -> cmd_box rest
+  | "fraglookup" :: rest -> cmd_fraglookup rest
   | ["ping"] -> "pong"
   | _ -> "EXN unknown command"
 
